@@ -458,8 +458,16 @@ func cutThenTrailer() []corpus.Seed {
 		sd := best[t]
 		pl := sd.Data[8:]
 		step := 4 * ((len(pl)/4 + 11) / 12)
-		for k := 8; k < len(pl); k += step {
+		first := 8
+		if len(pl) <= 96 {
+			// small boxes: every byte position (a list may end anywhere), with the first trailer only
+			step, first = 1, 1
+		}
+		for k := first; k < len(pl); k += step {
 			for ti, tr := range trailers {
+				if step == 1 && ti == 1 && k%4 != 0 {
+					continue
+				}
 				d := make([]byte, 0, 8+k+len(tr)+16)
 				if ti == 1 {
 					d = append(d, styp...) // file context
